@@ -1,25 +1,91 @@
 package main
 
 import (
+	"bytes"
 	"crypto/sha256"
 	"encoding/hex"
 	"fmt"
+	"io"
 	"os"
 	"os/exec"
+	"path/filepath"
 	"sort"
 	"strings"
 
+	"github.com/mmcloughlin/avo/attr"
+	"github.com/mmcloughlin/avo/build"
+	"github.com/mmcloughlin/avo/gotypes"
 	"github.com/mmcloughlin/avo/ir"
+	"github.com/mmcloughlin/avo/operand"
 	"github.com/mmcloughlin/avo/pass"
 	"github.com/mmcloughlin/avo/printer"
 	"github.com/mmcloughlin/avo/reg"
+	"github.com/mmcloughlin/avo/x86"
 )
 
-// c17Compile builds the k-th program of the seed from scratch, compiles it and
-// returns a digest of (asm bytes, stub bytes, allocation) or the error class.
-// c17ISA holds, per compiled function of the last c17Compile call, the distinct ISA names of its
+// ---------------------------------------------------------------------------------------------
+// Two streams of programs, each generated FROM SCRATCH for every run (the generators draw only from
+// the seeded rng and iterate no Go map themselves):
+//
+//   f<k>  ir-level: two random functions built with newFgen (prog.go) and compiled with pass.Compile
+//   c<k>  build-level: a whole file built through build.Context (route 0: methods of a fresh context;
+//         route 1: the package-level functions build.TEXT/GP64/ADDQ/… on a swapped-in fresh global
+//         context) with signatures, Param/Load/Store, data sections, constraints, docs, pragmas,
+//         comments, labels, locals, several functions per file and extra #include lines, run through
+//         build.Main with the passes [custom include pass, pass.Compile, Output(goasm), Output(stubs)].
+//
+// A digest is "<asm>.<stubs>.<alloc+isa>" (three truncated sha256) or "err:<message>" / "panic".
+// ---------------------------------------------------------------------------------------------
+
+// c17ISA holds, per compiled function of the last compile call, the distinct ISA names of its
 // instructions in first-occurrence order and the ISA list the pass computed.
 var c17ISA [][2][]string
+
+// c17Last keeps the bytes of the last compile (for the diagnostic dump on a mismatch).
+var c17LastAsm, c17LastStub []byte
+
+func c17h(b []byte) string {
+	s := sha256.Sum256(b)
+	return hex.EncodeToString(s[:])[:10]
+}
+
+// c17Digest digests the outputs and, per function, Allocation and ISA (sorted by virtual id: the digest
+// itself must not depend on map order).
+func c17Digest(asm, stub []byte, file *ir.File) string {
+	c17LastAsm, c17LastStub = asm, stub
+	var ab bytes.Buffer
+	for _, f := range file.Functions() {
+		var names []string
+		seen := map[string]bool{}
+		for _, i := range f.Instructions() {
+			for _, n := range i.ISA {
+				if !seen[n] {
+					seen[n] = true
+					names = append(names, n)
+				}
+			}
+		}
+		c17ISA = append(c17ISA, [2][]string{names, f.ISA})
+		ids := make([]int, 0, len(f.Allocation))
+		for v := range f.Allocation {
+			ids = append(ids, int(v))
+		}
+		sort.Ints(ids)
+		// physical registers in the order of the virtual ids (ranks, not the ids themselves: a
+		// renumbering of virtual registers that keeps their order is not a change of the assignment)
+		for _, v := range ids {
+			fmt.Fprintf(&ab, "%d;", f.Allocation[reg.ID(v)])
+		}
+		fmt.Fprintf(&ab, "|%v|%d|", f.ISA, f.LocalSize)
+	}
+	return c17h(asm) + "." + c17h(stub) + "." + c17h(ab.Bytes())
+}
+
+func c17ErrDigest(err error) string {
+	return "err:" + strings.NewReplacer(" ", "_", "\n", "|", "\t", "_").Replace(err.Error())
+}
+
+// ---- stream f: ir-level ------------------------------------------------------------------------
 
 func c17Compile(db *formsDB, seed uint64, k int) (digest string, ok bool) {
 	c17ISA = nil
@@ -40,7 +106,7 @@ func c17Compile(db *formsDB, seed uint64, k int) (digest string, ok bool) {
 		return "panic", false
 	}
 	if err != nil {
-		return "err:" + strings.ReplaceAll(err.Error(), " ", "_"), true
+		return c17ErrDigest(err), true
 	}
 	cfgp := printer.Config{Name: "avo", Pkg: "p"}
 	asm, err1 := printer.NewGoAsm(cfgp).Print(file)
@@ -48,42 +114,440 @@ func c17Compile(db *formsDB, seed uint64, k int) (digest string, ok bool) {
 	if err1 != nil || err2 != nil {
 		return "printerr", true
 	}
-	h := sha256.New()
-	h.Write(asm)
-	h.Write([]byte{0})
-	h.Write(stub)
-	h.Write([]byte{0})
-	for _, f := range file.Functions() {
-		var names []string
-		seen := map[string]bool{}
-		for _, i := range f.Instructions() {
-			for _, n := range i.ISA {
-				if !seen[n] {
-					seen[n] = true
-					names = append(names, n)
-				}
+	return c17Digest(asm, stub, file), true
+}
+
+// ---- stream c: through build.Context -------------------------------------------------------------
+
+// c17API is the set of entry points used by the generator, bound either to a context or to the
+// package-level functions.
+type c17API struct {
+	Function       func(string)
+	Attributes     func(attr.Attribute)
+	SignatureExpr  func(string)
+	Doc            func(...string)
+	Pragma         func(string, ...string)
+	ConstraintExpr func(string)
+	GP64           func() reg.GPVirtual
+	GP32           func() reg.GPVirtual
+	XMM, YMM, ZMM  func() reg.VecVirtual
+	K              func() reg.OpmaskVirtual
+	Param          func(string) gotypes.Component
+	ReturnIndex    func(int) gotypes.Component
+	Return         func(string) gotypes.Component
+	Load           func(gotypes.Component, reg.Register) reg.Register
+	Store          func(reg.Register, gotypes.Component)
+	Dereference    func(gotypes.Component) gotypes.Component
+	AllocLocal     func(int) operand.Mem
+	Label          func(string)
+	Comment        func(...string)
+	Instruction    func(*ir.Instruction)
+	GLOBL          func(string, attr.Attribute) operand.Mem
+	DATA           func(int, operand.Constant)
+	ConstData      func(string, operand.Constant) operand.Mem
+	ADDQ, XORQ     func(a, b operand.Op)
+	MOVQ           func(a, b operand.Op)
+	VPADDD         func(...operand.Op)
+	RET            func()
+}
+
+func c17APIContext(c *build.Context) c17API {
+	return c17API{Function: c.Function, Attributes: c.Attributes, SignatureExpr: c.SignatureExpr, Doc: c.Doc, Pragma: c.Pragma,
+		ConstraintExpr: c.ConstraintExpr, GP64: c.GP64, GP32: c.GP32, XMM: c.XMM, YMM: c.YMM, ZMM: c.ZMM, K: c.K,
+		Param: c.Param, ReturnIndex: c.ReturnIndex, Return: c.Return, Load: c.Load, Store: c.Store, Dereference: c.Dereference, AllocLocal: c.AllocLocal,
+		Label: c.Label, Comment: c.Comment, Instruction: c.Instruction,
+		GLOBL: func(n string, a attr.Attribute) operand.Mem { m := c.StaticGlobal(n); c.DataAttributes(a); return m },
+		DATA:  c.AddDatum, ConstData: c.ConstData, ADDQ: c.ADDQ, XORQ: c.XORQ, MOVQ: c.MOVQ, VPADDD: c.VPADDD, RET: c.RET}
+}
+
+func c17APIGlobal() c17API {
+	return c17API{Function: build.Function, Attributes: build.Attributes, SignatureExpr: build.SignatureExpr, Doc: build.Doc,
+		Pragma: build.Pragma, ConstraintExpr: build.ConstraintExpr, GP64: build.GP64, GP32: build.GP32, XMM: build.XMM, YMM: build.YMM,
+		ZMM: build.ZMM, K: build.K, Param: build.Param, ReturnIndex: build.ReturnIndex, Return: build.Return, Load: build.Load,
+		Store: build.Store, Dereference: build.Dereference, AllocLocal: build.AllocLocal, Label: build.Label, Comment: build.Comment, Instruction: build.Instruction,
+		GLOBL: build.GLOBL, DATA: build.DATA, ConstData: build.ConstData, ADDQ: build.ADDQ, XORQ: build.XORQ, MOVQ: build.MOVQ,
+		VPADDD: build.VPADDD, RET: build.RET}
+}
+
+// c17Shape records what a generated file contains (input distribution and floors).
+type c17Shape struct {
+	funcs, includes, data, constraints, instrs, virtuals int
+	sigs                                                 []int
+}
+
+type c17sig struct {
+	expr string
+	// loads: (component path, destination class) ; stores: (return index, class)
+	loads  []c17io
+	stores []c17io
+}
+type c17io struct {
+	name  string // parameter name or "" (for stores: result index in idx)
+	sub   string // "", "base", "len", "cap", "real", "imag", "idx1"
+	idx   int
+	class string // "q" 64-bit GP, "l" 32, "w" 16, "b" 8, "sd" float64 in XMM, "ss" float32 in XMM
+}
+
+var c17Sigs = []c17sig{
+	{"func(x, y uint64) uint64", []c17io{{"x", "", 0, "q"}, {"y", "", 0, "q"}}, []c17io{{"", "", 0, "q"}}},
+	{"func(a []byte, n int) (r uint32, ok bool)", []c17io{{"a", "base", 0, "q"}, {"a", "len", 0, "q"}, {"a", "cap", 0, "q"}, {"n", "", 0, "q"}}, []c17io{{"", "", 0, "l"}, {"", "", 1, "b"}}},
+	{"func(p *[4]uint64, s string) (lo, hi uint64)", []c17io{{"p", "", 0, "q"}, {"s", "base", 0, "q"}, {"s", "len", 0, "q"}}, []c17io{{"", "", 0, "q"}, {"", "", 1, "q"}}},
+	{"func(x float64, y float32, z uint16) float64", []c17io{{"x", "", 0, "sd"}, {"y", "", 0, "ss"}, {"z", "", 0, "w"}}, []c17io{{"", "", 0, "sd"}}},
+	{"func()", nil, nil},
+	{"func(c complex128, v [2]int32) (re float64, e int32)", []c17io{{"c", "real", 0, "sd"}, {"c", "imag", 0, "sd"}, {"v", "idx1", 0, "l"}}, []c17io{{"", "", 0, "sd"}, {"", "", 1, "l"}}},
+	{"func(b bool, i8 int8, u32 uint32, f func()) (r0 uintptr, r1 int16)", []c17io{{"b", "", 0, "b"}, {"i8", "", 0, "b"}, {"u32", "", 0, "l"}}, []c17io{{"", "", 0, "q"}, {"", "", 1, "w"}}},
+}
+
+var c17Constraints = []string{"amd64", "amd64,!purego", "!appengine,gc amd64", "linux darwin,amd64", "go1.18,!noasm"}
+var c17Includes = []string{"go_asm.h", "funcdata.h", "mydefs.h", "textflag.h", "consts_amd64.h"}
+
+// c17Build plays the k-th build-level program of the seed on the api.
+func c17Build(a c17API, seed uint64, k int) (incs []string, sh c17Shape) {
+	r := newRng(seed*7919 + 0xC17C17 + uint64(k)*2654435761)
+	emit := func(i *ir.Instruction, err error) {
+		if err == nil {
+			a.Instruction(i)
+			sh.instrs++
+		}
+	}
+	if r.chance(1, 2) {
+		a.ConstraintExpr(pick(r, c17Constraints))
+		sh.constraints++
+	}
+	// extra includes: 0 (25%), 1, 2 or 3 distinct ones; order drawn
+	nInc := []int{0, 1, 2, 2, 2, 3, 3, 3}[r.intn(8)]
+	perm := []int{0, 1, 2, 3, 4}
+	for i := len(perm) - 1; i > 0; i-- {
+		j := r.intn(i + 1)
+		perm[i], perm[j] = perm[j], perm[i]
+	}
+	for i := 0; i < nInc; i++ {
+		incs = append(incs, c17Includes[perm[i]])
+	}
+	sh.includes = nInc
+	var dataMems []operand.Mem
+	addData := func(idx int) {
+		switch r.intn(3) {
+		case 0:
+			m := a.GLOBL(fmt.Sprintf("tbl%d", idx), attr.RODATA|attr.NOPTR)
+			n := 1 + r.intn(6)
+			for j := 0; j < n; j++ {
+				a.DATA(8*j, operand.U64(r.u64()))
+			}
+			dataMems = append(dataMems, m)
+		case 1:
+			dataMems = append(dataMems, a.ConstData(fmt.Sprintf("c%d", idx), operand.U64(r.u64())))
+		default:
+			m := a.GLOBL(fmt.Sprintf("mix%d", idx), attr.RODATA|attr.NOPTR)
+			a.DATA(0, operand.U32(uint32(r.u64())))
+			a.DATA(4, operand.U16(uint16(r.u64())))
+			a.DATA(6, operand.U8(uint8(r.u64())))
+			a.DATA(8, operand.String("avo"+itoa(idx)))
+			a.DATA(16, operand.F64(float64(r.intn(1000))/8))
+			dataMems = append(dataMems, m)
+		}
+		sh.data++
+	}
+	nData := r.intn(3)
+	for i := 0; i < nData; i++ {
+		addData(i)
+	}
+	nFn := 1 + r.intn(3)
+	sh.funcs = nFn
+	for fi := 0; fi < nFn; fi++ {
+		si := r.intn(len(c17Sigs))
+		sig := c17Sigs[si]
+		sh.sigs = append(sh.sigs, si)
+		name := fmt.Sprintf("fn%d", fi)
+		a.Function(name)
+		if r.chance(1, 2) {
+			a.Doc(name+" is generated.", "It has "+itoa(len(sig.loads))+" loads.")
+		}
+		if r.chance(1, 4) {
+			a.Pragma("noescape")
+		}
+		a.Attributes([]attr.Attribute{0, attr.NOSPLIT, attr.NOSPLIT, attr.NOSPLIT | attr.NOPTR}[r.intn(4)])
+		a.SignatureExpr(sig.expr)
+		nGP, nX, nY, nZ, nK := 2+r.intn(13), 1+r.intn(6), r.intn(6), r.intn(4), r.intn(4)
+		if r.chance(1, 6) {
+			nGP = 14 + r.intn(4) // register pressure: BP needed or allocation fails
+		}
+		sh.virtuals += nGP + nX + nY + nZ + nK
+		gp := make([]reg.GPVirtual, nGP)
+		for i := range gp {
+			gp[i] = a.GP64()
+		}
+		xs := make([]reg.VecVirtual, nX)
+		for i := range xs {
+			xs[i] = a.XMM()
+		}
+		ys := make([]reg.VecVirtual, nY)
+		for i := range ys {
+			ys[i] = a.YMM()
+		}
+		zs := make([]reg.VecVirtual, nZ)
+		for i := range zs {
+			zs[i] = a.ZMM()
+		}
+		ks := make([]reg.OpmaskVirtual, nK)
+		for i := range ks {
+			ks[i] = a.K()
+		}
+		var local operand.Mem
+		hasLocal := r.chance(1, 3)
+		if hasLocal {
+			local = a.AllocLocal(8 * (1 + r.intn(4)))
+		}
+		G := func() reg.GPVirtual { return gp[r.intn(nGP)] }
+		X := func() reg.VecVirtual { return xs[r.intn(nX)] }
+		comp := func(io c17io, c gotypes.Component) gotypes.Component {
+			switch io.sub {
+			case "base":
+				return c.Base()
+			case "len":
+				return c.Len()
+			case "cap":
+				return c.Cap()
+			case "real":
+				return c.Real()
+			case "imag":
+				return c.Imag()
+			case "idx1":
+				return c.Index(1)
+			}
+			return c
+		}
+		view := func(g reg.GPVirtual, class string) reg.Register {
+			switch class {
+			case "l":
+				return g.As32()
+			case "w":
+				return g.As16()
+			case "b":
+				return g.As8()
+			}
+			return g
+		}
+		// initialise every virtual (ties: all equal priority, all the same candidate lists)
+		li := 0
+		for i := range gp {
+			if li < len(sig.loads) && (sig.loads[li].class == "q" || sig.loads[li].class == "l" || sig.loads[li].class == "w" || sig.loads[li].class == "b") {
+				a.Load(comp(sig.loads[li], a.Param(sig.loads[li].name)), view(gp[i], sig.loads[li].class))
+				li++
+				continue
+			}
+			if len(dataMems) > 0 && r.chance(1, 4) {
+				a.MOVQ(pick(r, dataMems).Offset(0), gp[i])
+			} else {
+				a.MOVQ(operand.U32(uint32(r.intn(1000))), gp[i])
+			}
+			sh.instrs++
+		}
+		xi := 0
+		for ; li < len(sig.loads); li++ {
+			io := sig.loads[li]
+			if io.class == "sd" || io.class == "ss" {
+				a.Load(comp(io, a.Param(io.name)), xs[xi%nX])
+				xi++
 			}
 		}
-		c17ISA = append(c17ISA, [2][]string{names, f.ISA})
-		ids := make([]int, 0, len(f.Allocation))
-		for v := range f.Allocation {
-			ids = append(ids, int(v))
+		for i := xi; i < nX; i++ {
+			emit(x86.PXOR(xs[i], xs[i]))
 		}
-		sort.Ints(ids)
-		for _, v := range ids {
-			fmt.Fprintf(h, "%d=%d;", v, f.Allocation[reg.ID(v)])
+		for i := range ys {
+			emit(x86.VPXOR(ys[i], ys[i], ys[i]))
 		}
-		fmt.Fprintf(h, "|%v|", f.ISA)
+		for i := range zs {
+			emit(x86.VPXORD(zs[i], zs[i], zs[i]))
+		}
+		for i := range ks {
+			emit(x86.KMOVQ(G(), ks[i]))
+		}
+		if si == 2 && r.chance(1, 2) {
+			// *[4]uint64: Dereference allocates a GP64 of its own and loads the pointer
+			a.Load(a.Dereference(a.Param("p")).Index(1+r.intn(3)), G())
+		}
+		loop := r.chance(1, 3)
+		cnt := G()
+		if loop {
+			a.Label(fmt.Sprintf("loop%d", fi))
+		}
+		n := 3 + r.intn(38)
+		for j := 0; j < n; j++ {
+			switch r.intn(22) {
+			case 0, 1:
+				a.ADDQ(G(), G())
+				sh.instrs++
+			case 2:
+				a.XORQ(G(), G())
+				sh.instrs++
+			case 3:
+				emit(x86.IMULQ(G(), G()))
+			case 4:
+				emit(x86.SUBQ(operand.U8(uint8(r.intn(100))), G()))
+			case 5:
+				emit(x86.MOVL(G().As32(), G().As32()))
+			case 6:
+				emit(x86.MOVB(G().As8(), G().As8()))
+			case 7:
+				emit(x86.MULXQ(G(), G(), G()))
+			case 8:
+				emit(x86.POPCNTQ(G(), G()))
+			case 9:
+				emit(x86.ADCXQ(G(), G()))
+			case 10:
+				emit(x86.MULQ(G())) // implicit RAX, RDX
+			case 11:
+				emit(x86.MOVQ(pick(r, []reg.Register{reg.RAX, reg.RDX, reg.RCX, reg.R15}), G()))
+			case 12:
+				emit(x86.PADDD(X(), X()))
+			case 13:
+				emit(x86.AESENC(X(), X()))
+			case 14:
+				if nY > 0 {
+					a.VPADDD(ys[r.intn(nY)], ys[r.intn(nY)], ys[r.intn(nY)])
+					sh.instrs++
+				} else {
+					emit(x86.LZCNTQ(G(), G()))
+				}
+			case 15:
+				if nY > 0 && nK > 0 {
+					a.VPADDD(ys[r.intn(nY)], ys[r.intn(nY)], ks[r.intn(nK)], ys[r.intn(nY)]) // AVX512F + AVX512VL
+					sh.instrs++
+				} else {
+					emit(x86.ANDNQ(G(), G(), G()))
+				}
+			case 16:
+				if nZ > 0 {
+					emit(x86.VPMULLQ(zs[r.intn(nZ)], zs[r.intn(nZ)], zs[r.intn(nZ)])) // AVX512DQ
+				} else {
+					emit(x86.BSWAPQ(G()))
+				}
+			case 17:
+				if nZ > 0 {
+					emit(x86.VPADDB(zs[r.intn(nZ)], zs[r.intn(nZ)], zs[r.intn(nZ)])) // AVX512BW
+				} else {
+					emit(x86.SHLQ(operand.U8(uint8(1+r.intn(7))), G()))
+				}
+			case 18:
+				if hasLocal {
+					if r.chance(1, 2) {
+						a.MOVQ(G(), local)
+					} else {
+						a.MOVQ(local, G())
+					}
+					sh.instrs++
+				} else {
+					emit(x86.LEAQ(operand.Mem{Base: G(), Index: G(), Scale: 8, Disp: 16}, G()))
+				}
+			case 19:
+				if len(dataMems) > 0 {
+					emit(x86.ADDQ(pick(r, dataMems).Offset(0), G()))
+				} else {
+					emit(x86.PCLMULQDQ(operand.U8(1), X(), X()))
+				}
+			case 20:
+				a.Comment("step " + itoa(j))
+			case 21:
+				emit(x86.SHA256RNDS2(reg.X0, X(), X()))
+			}
+		}
+		if r.chance(1, 2) {
+			// keep every GP (and vector) virtual alive to the end: interference between all of them
+			for i := 1; i < nGP; i++ {
+				a.ADDQ(gp[i], gp[0])
+				sh.instrs++
+			}
+			for i := 1; i < nX; i++ {
+				emit(x86.PADDD(xs[i], xs[0]))
+			}
+			for i := 1; i < nY; i++ {
+				emit(x86.VPADDD(ys[i], ys[0], ys[0]))
+			}
+		}
+		if loop {
+			emit(x86.DECQ(cnt))
+			emit(x86.JNZ(operand.LabelRef(fmt.Sprintf("loop%d", fi))))
+		}
+		for _, st := range sig.stores {
+			switch st.class {
+			case "sd":
+				a.Store(X(), a.ReturnIndex(st.idx))
+			default:
+				a.Store(view(G(), st.class), a.ReturnIndex(st.idx))
+			}
+		}
+		if nY+nZ > 0 {
+			emit(x86.VZEROUPPER())
+		}
+		a.RET()
+		sh.instrs++
+		if r.chance(1, 4) {
+			addData(10 + fi)
+		}
 	}
-	return hex.EncodeToString(h.Sum(nil))[:24], true
+	return incs, sh
+}
+
+type c17buf struct{ bytes.Buffer }
+
+func (*c17buf) Close() error { return nil }
+
+// c17CompileCtx builds the k-th build-level program through the chosen route and runs build.Main.
+func c17CompileCtx(seed uint64, k, route int) (digest string, sh c17Shape) {
+	c17ISA = nil
+	var file *ir.File
+	var asm, stub c17buf
+	var errout bytes.Buffer
+	var incs []string
+	status := -1
+	_, panicked := safely(func() error {
+		c := build.NewContext()
+		if route == 1 {
+			old := build.VerifSwapContext(c)
+			defer build.VerifSwapContext(old)
+			incs, sh = c17Build(c17APIGlobal(), seed, k)
+		} else {
+			incs, sh = c17Build(c17APIContext(c), seed, k)
+		}
+		pc := printer.Config{Name: "avo", Pkg: "p", Argv: []string{"gen", "-out", "x.s"}}
+		cfg := &build.Config{ErrOut: &errout, MaxErrors: 0, Passes: []pass.Interface{
+			pass.Func(func(f *ir.File) error { file = f; f.Includes = append(f.Includes, incs...); return nil }),
+			pass.Compile,
+			&pass.Output{Writer: &asm, Printer: printer.NewGoAsm(pc)},
+			&pass.Output{Writer: &stub, Printer: printer.NewStubs(pc)},
+		}}
+		status = build.Main(cfg, c)
+		return nil
+	})
+	if panicked {
+		return "panic", sh
+	}
+	if status != 0 {
+		return c17ErrDigest(fmt.Errorf("status=%d %s", status, errout.String())), sh
+	}
+	return c17Digest(asm.Bytes(), stub.Bytes(), file), sh
+}
+
+// c17One compiles program (stream, k) once.
+func c17One(db *formsDB, seed uint64, stream string, k, route int) string {
+	if stream == "f" {
+		d, _ := c17Compile(db, seed, k)
+		return d
+	}
+	d, _ := c17CompileCtx(seed, k, route)
+	return d
 }
 
 func init() {
-	register("c17", "determinism: repeated in-process and cross-process compilation of generated programs", func(args []string) error {
+	register("c17", "determinism: repeated in-process and cross-process generation+compilation of generated programs", func(args []string) error {
 		f := newStdFlags("c17")
-		child := f.fs.Bool("child", false, "child mode: print one digest per program")
+		child := f.fs.Int("child", -1, "child mode (index p): print one digest per program of both streams")
 		runs := f.fs.Int("runs", 20, "in-process repetitions")
 		procs := f.fs.Int("procs", 4, "separate processes")
+		nctx := f.fs.Int("nctx", -1, "number of build-level programs (default n)")
+		dump := f.fs.String("dump", "", "directory for the outputs of differing runs")
+		show := f.fs.Int("show", -1, "print the assembly and stubs of build-level program k and exit")
 		if err := f.fs.Parse(args); err != nil {
 			return err
 		}
@@ -91,9 +555,87 @@ func init() {
 		if err != nil {
 			return err
 		}
-		if *child {
+		if *nctx < 0 {
+			*nctx = *f.n
+		}
+		if *show >= 0 {
+			d, _ := c17CompileCtx(*f.seed, *show, 0)
+			fmt.Printf("digest %s\n%s\n----\n%s", d, c17LastAsm, c17LastStub)
+			return nil
+		}
+		type prog struct {
+			stream string
+			k      int
+			seed   uint64
+		}
+		var progs []prog
+		var isaLines [][]string
+		if *f.replay != "" {
+			// replay: `accept-det <stream><k>@<seed> …` regenerates exactly that program (the digests recorded in
+			// the line are ignored, the runs are repeated); `isa n names…` is recomputed by the real pass
+			lines, err := readLines(*f.replay)
+			if err != nil {
+				return err
+			}
+			for _, l := range lines {
+				t := strings.Fields(l)
+				switch {
+				case len(t) >= 2 && t[0] == "accept-det":
+					var pg prog
+					at := strings.IndexByte(t[1], '@')
+					if at < 2 || (t[1][0] != 'f' && t[1][0] != 'c') {
+						return fmt.Errorf("replay: bad program token %q", t[1])
+					}
+					pg.stream = t[1][:1]
+					if _, err := fmt.Sscanf(t[1][1:], "%d@%d", &pg.k, &pg.seed); err != nil {
+						return fmt.Errorf("replay: bad program token %q", t[1])
+					}
+					progs = append(progs, pg)
+				case len(t) >= 2 && t[0] == "isa":
+					isaLines = append(isaLines, t[2:])
+				}
+			}
+			// canonical order, no duplicates: parent and children must enumerate the same list (a JSON replay
+			// file is walked in map order by readLines)
+			sort.Slice(progs, func(i, j int) bool {
+				a, b := progs[i], progs[j]
+				if a.stream != b.stream {
+					return a.stream < b.stream
+				}
+				if a.seed != b.seed {
+					return a.seed < b.seed
+				}
+				return a.k < b.k
+			})
+			uniq := progs[:0]
+			for i, pg := range progs {
+				if i == 0 || pg != progs[i-1] {
+					uniq = append(uniq, pg)
+				}
+			}
+			progs = uniq
+			sort.Slice(isaLines, func(i, j int) bool { return strings.Join(isaLines[i], " ") < strings.Join(isaLines[j], " ") })
+			*nctx = 1 << 30
+		} else {
 			for k := 0; k < *f.n; k++ {
-				d, _ := c17Compile(db, *f.seed, k)
+				progs = append(progs, prog{"f", k, *f.seed})
+			}
+			for k := 0; k < *nctx; k++ {
+				progs = append(progs, prog{"c", k, *f.seed})
+			}
+		}
+		if *child >= 0 {
+			// A child generates the programs in an order of its own (different histories in the process):
+			// even children forwards, odd children backwards; the route of the build-level stream alternates.
+			ds := make([]string, len(progs))
+			for j := range progs {
+				i := j
+				if *child%2 == 1 {
+					i = len(progs) - 1 - j
+				}
+				ds[i] = c17One(db, progs[i].seed, progs[i].stream, progs[i].k, (*child/2+progs[i].k)%2)
+			}
+			for _, d := range ds {
 				fmt.Println(d)
 			}
 			return nil
@@ -107,34 +649,86 @@ func init() {
 		childDigests := make([][]string, *procs)
 		self, _ := os.Executable()
 		for p := 0; p < *procs; p++ {
-			out, err := exec.Command(self, "c17", "-child", "-seed", fmt.Sprint(*f.seed), "-n", fmt.Sprint(*f.n), "-repo", *f.repo).Output()
+			out, err := exec.Command(self, "c17", "-child", fmt.Sprint(p), "-seed", fmt.Sprint(*f.seed), "-n", fmt.Sprint(*f.n),
+				"-nctx", fmt.Sprint(*nctx), "-repo", *f.repo, "-replay", *f.replay).Output()
 			if err != nil {
 				return fmt.Errorf("child %d: %v", p, err)
 			}
 			childDigests[p] = strings.Fields(string(out))
-			if len(childDigests[p]) != *f.n {
-				return fmt.Errorf("child %d printed %d digests, want %d", p, len(childDigests[p]), *f.n)
+			if len(childDigests[p]) != len(progs) {
+				return fmt.Errorf("child %d printed %d digests, want %d", p, len(childDigests[p]), len(progs))
 			}
 		}
 		stats := map[string]int{}
-		for k := 0; k < *f.n; k++ {
+		dumped := 0
+		for pi, pg := range progs {
 			var ds []string
+			var first [2][]byte
+			var sh c17Shape
 			for i := 0; i < *runs; i++ {
-				d, _ := c17Compile(db, *f.seed, k)
+				var d string
+				if pg.stream == "f" {
+					d, _ = c17Compile(db, pg.seed, pg.k)
+				} else {
+					d, sh = c17CompileCtx(pg.seed, pg.k, i%2)
+					if i%5 == 4 {
+						// another generation in between (history in the process)
+						c17CompileCtx(pg.seed, (pg.k+1+i)%(*nctx), (i/5)%2)
+						c17ISA = nil
+						d, sh = c17CompileCtx(pg.seed, pg.k, i%2)
+					}
+				}
+				if i == 0 {
+					first = [2][]byte{c17LastAsm, c17LastStub}
+				} else if d != ds[0] && *dump != "" && dumped < 5 && !strings.HasPrefix(d, "err:") && !strings.HasPrefix(ds[0], "err:") {
+					dumped++
+					os.MkdirAll(*dump, 0o755)
+					base := filepath.Join(*dump, fmt.Sprintf("%s%d", pg.stream, pg.k))
+					os.WriteFile(base+"-run0.s", first[0], 0o644)
+					os.WriteFile(base+"-run0.go", first[1], 0o644)
+					os.WriteFile(base+fmt.Sprintf("-run%d.s", i), c17LastAsm, 0o644)
+					os.WriteFile(base+fmt.Sprintf("-run%d.go", i), c17LastStub, 0o644)
+				}
 				ds = append(ds, d)
 			}
 			for p := 0; p < *procs; p++ {
-				ds = append(ds, childDigests[p][k])
+				ds = append(ds, childDigests[p][pi])
 			}
+			pre := pg.stream + "_"
 			switch {
 			case ds[0] == "panic":
-				stats["panic"]++
+				stats[pre+"panic"]++
 			case strings.HasPrefix(ds[0], "err:"):
-				stats["compile_error"]++
+				stats[pre+"compile_error"]++
 			default:
-				stats["compiled"]++
+				stats[pre+"compiled"]++
+				if pg.stream == "c" {
+					if sh.includes >= 2 {
+						stats["c_compiled_ge2_includes"]++
+					}
+					if sh.funcs >= 2 {
+						stats["c_compiled_ge2_funcs"]++
+					}
+					if sh.data >= 1 {
+						stats["c_compiled_with_data"]++
+					}
+					if sh.constraints >= 1 {
+						stats["c_compiled_with_constraints"]++
+					}
+					stats["c_instrs"] += sh.instrs
+					stats["c_virtuals"] += sh.virtuals
+				}
+				multi := false
+				for _, p := range c17ISA {
+					if len(p[1]) >= 3 {
+						multi = true
+					}
+				}
+				if multi {
+					stats[pre+"compiled_ge3_isa"]++
+				}
 			}
-			o.emit(fmt.Sprintf("accept-det %d %d %s", k, len(ds), strings.Join(ds, " ")), "ok")
+			o.emit(fmt.Sprintf("accept-det %s%d@%d %d %s", pg.stream, pg.k, pg.seed, len(ds), strings.Join(ds, " ")), "ok")
 			for _, p := range c17ISA {
 				req := append([]string{"isa", itoa(len(p[0]))}, p[0]...)
 				resp := append([]string{itoa(len(p[1]))}, p[1]...)
@@ -142,7 +736,21 @@ func init() {
 				stats["isa_lists"]++
 			}
 		}
+		for _, names := range isaLines {
+			// the real pass on a function whose instructions carry these ISA names
+			fn := ir.NewFunction("isa")
+			for _, n := range names {
+				fn.AddInstruction(&ir.Instruction{Opcode: "NOP", ISA: []string{n}})
+			}
+			if err := pass.RequiredISAExtensions(fn); err != nil {
+				return err
+			}
+			o.emit(strings.Join(append([]string{"isa", itoa(len(names))}, names...), " "), strings.Join(append([]string{itoa(len(fn.ISA))}, fn.ISA...), " "))
+			stats["isa_lists"]++
+		}
 		stats["runs_per_program"] = *runs + *procs
 		return writeJSON(*f.stats, stats)
 	})
 }
+
+var _ io.Writer = (*c17buf)(nil)
